@@ -7,6 +7,7 @@ import (
 	"fmt"
 	"log"
 	"runtime"
+	"strings"
 	"sync"
 	"sync/atomic"
 	"testing"
@@ -35,6 +36,15 @@ import (
 // the design assumes (c10AssumedGCI) and the model takes the extracted constant.
 // A probe (c10DeadEntryBlocks) records whether the pre-fix behaviour is back.
 //
+// A unit of work is not an upkeep: the pools (c10MakePool) span the identity dimensions of results — several work
+// ids of one upkeep (2–10 logs of a log-trigger upkeep), one work id at several check blocks, one check block with
+// several hashes, log block numbers that are not part of the identity, upkeep ids one bit apart, and (the store's
+// keys being plain strings) work ids that share long prefixes, contain one another or differ in case only — and
+// outcomes handed to the hook agree on several results of one upkeep at once, mixed with others, in any order.
+// The same histories at the level of one node (plugin instance from the public factory: log flow -> runner ->
+// eligible post-processor -> store; Observation with a previous outcome -> RemoveFromStagingHook -> the view inside
+// the observation) are in c10_node_test.go.
+//
 // Input: a table of results and a list of operations referring to it by index;
 // every operation carries the virtual nanoseconds slept before it.  A "burst"
 // operation runs several goroutines (un-timed, same virtual instant) and
@@ -42,7 +52,7 @@ import (
 // driver uses for an exact, bounded linearizability search against the model.
 
 type c10Op struct {
-	K  string `json:"k"`            // add | padd | flow | rm | hook | view | burst
+	K  string `json:"k"`            // add | padd | flow | rm | hook | view | burst ; node cases (c10_node_test.go): stage | obs
 	Dt int64  `json:"dt"`           // virtual ns slept before the operation (main goroutine only)
 	Rs []int  `json:"rs,omitempty"` // add / padd / flow / hook: indices into Input.Res
 	// padd: the context handed to PostProcess: "" live, "done" cancelled before the call, "expired" deadline
@@ -64,6 +74,7 @@ type c10Input struct {
 	Res     []JCR   `json:"res"`
 	Ops     []c10Op `json:"ops"`
 	// Kind "gc-race": no history; the GC-vs-Add stress of c10GCRace with these parameters
+	// Kind "node": the history runs on a plugin instance built by the public factory (c10_node_test.go)
 	Kind string    `json:"kind,omitempty"`
 	Race *c10RaceP `json:"race,omitempty"`
 }
@@ -89,6 +100,10 @@ type c10OpOut struct {
 	Res   uint64    `json:"res"`
 	View  *c10View  `json:"view,omitempty"`
 	Calls []c10Call `json:"calls,omitempty"`
+	// node cases: the virtual instant at which the log flow of the instance took the staged payloads from the
+	// log provider (stage), and the error of the Observation call, if any (obs)
+	AddAt int64  `json:"addAt,omitempty"`
+	Err   string `json:"err,omitempty"`
 }
 
 type c10Impl struct {
@@ -557,18 +572,147 @@ type c10Pool struct {
 	byWid map[string][]int // indices of eligible results per work id
 	blkOf []uint64
 	bad   []int // ineligible / failed-pipeline results (only the post-processor may see them)
+	// identities: a unit of work is NOT an upkeep — a log-trigger upkeep has one work id per log
+	uidOf map[string]string   // work id -> upkeep id (hex)
+	byUID map[string][]string // upkeep id -> its work ids, in pool order
+	mode  int
 }
+
+// identity layouts of a pool's units of work
+const (
+	c10Plain     = iota // every work id belongs to an upkeep of its own
+	c10Families         // log-trigger upkeeps with several logs each (one work id per log) next to other upkeeps
+	c10Synthetic        // work ids are free strings: long common prefixes, one a prefix of another, case variants
+)
 
 // block numbers at and around 2^31, 2^32, 2^53, 2^63 and the ends of the uint64 range
 var c10WideBlocks = []uint64{0, 1, 5, 1<<31 - 1, 1 << 31, 1<<32 - 1, 1 << 32, 1<<53 - 1, 1<<53 + 1,
 	1<<63 - 1, 1 << 63, 1<<63 + 1, 1<<63 + 5, 1<<63 + 10, 1<<64 - 8, 1<<64 - 2, 1<<64 - 1}
 
+// c10NextBase: the next unit of work of a pool — a fresh upkeep or, in the layouts other than c10Plain, one that
+// shares part of its identity with an earlier unit: the upkeep (another log of the same log-trigger upkeep: another
+// transaction, the same transaction and a later log index, the same transaction and index in another block — a
+// re-org), or all of the upkeep id but one bit.
+func c10NextBase(r *Rng, mode int, prev []ocr2keepers.CheckResult) ocr2keepers.CheckResult {
+	taken := func(w string) bool {
+		for _, b := range prev {
+			if b.WorkID == w {
+				return true
+			}
+		}
+		return false
+	}
+	var logs []ocr2keepers.CheckResult
+	for _, b := range prev {
+		if b.Trigger.LogTriggerExtension != nil {
+			logs = append(logs, b)
+		}
+	}
+	if mode != c10Plain && len(logs) > 0 && r.Chance(70) {
+		b := logs[r.Intn(len(logs))]
+		if r.Chance(50) {
+			b = logs[0] // one family grows large
+		}
+		return c10Sibling(r, b, taken)
+	}
+	if mode != c10Plain && len(prev) > 0 && r.Chance(40) {
+		uid := prev[r.Intn(len(prev))].UpkeepID
+		uid[[]int{0, 3, 16, 30, 31}[r.Intn(5)]] ^= byte(1) << r.Intn(8) // never the type byte (15)
+		if c := genResult(r, uid, 1000); !taken(c.WorkID) {
+			return c
+		}
+	}
+	return genResult(r, genUpkeepID(r, (mode == c10Families && len(logs) == 0) || r.Chance(50)), 1000)
+}
+
+// c10Sibling: another log of b's (log-trigger) upkeep — a different unit of work of the same upkeep.
+func c10Sibling(r *Rng, b ocr2keepers.CheckResult, taken func(string) bool) ocr2keepers.CheckResult {
+	for {
+		c := genResult(r, b.UpkeepID, uint64(b.Trigger.BlockNumber))
+		ext := *b.Trigger.LogTriggerExtension
+		switch r.Intn(4) {
+		case 0: // unrelated log of the same upkeep
+			ext = *c.Trigger.LogTriggerExtension
+		case 1: // a later log of the same transaction
+			ext.Index += uint32(1 + r.Intn(3))
+		case 2: // same transaction and index, seen in another block
+			ext.BlockHash = genHash(r)
+		default: // same block, another transaction
+			ext.TxHash = genHash(r)
+		}
+		c.Trigger.LogTriggerExtension = &ext
+		c.WorkID = wg(c.UpkeepID, c.Trigger)
+		if !taken(c.WorkID) {
+			return c
+		}
+	}
+}
+
+// c10SyntheticWid: the store's keys are strings and nothing else; ids that differ late, contain one another or
+// differ in case only are different units of work.
+func c10SyntheticWid(r *Rng, stem string, taken map[string]bool) string {
+	for try := 0; ; try++ {
+		var w string
+		switch r.Intn(6) {
+		case 0:
+			w = stem[:len(stem)-1] + string("0123456789abcdef"[r.Intn(16)])
+		case 1:
+			w = stem[:len(stem)-1-r.Intn(8)] // a proper prefix
+		case 2:
+			w = stem + string("0123456789abcdef"[r.Intn(16)]) // the stem is a proper prefix of it
+		case 3:
+			w = strings.ToUpper(stem)
+		case 4:
+			w = stem[:len(stem)-2] + string("0123456789abcdef"[r.Intn(16)]) + stem[len(stem)-1:]
+		default:
+			w = string("0123456789abcdef"[r.Intn(16)]) + stem[1:]
+		}
+		if try > 40 {
+			w = fmt.Sprintf("%s%x", stem[:len(stem)-8], r.U64()%(1<<32))
+		}
+		if !taken[w] {
+			return w
+		}
+	}
+}
+
 func c10MakePool(r *Rng, nIDs int) *c10Pool {
-	p := &c10Pool{byWid: map[string][]int{}}
+	mode := c10Plain
+	switch x := r.Intn(100); {
+	case x < 35:
+		mode = c10Families
+		if r.Chance(60) { // room for 2–10 logs of one upkeep next to other upkeeps
+			nIDs += r.Range(2, 8)
+		}
+	case x < 45:
+		mode = c10Synthetic
+		nIDs += r.Intn(3)
+	}
+	return c10MakePoolMode(r, nIDs, mode)
+}
+
+func c10MakePoolMode(r *Rng, nIDs int, mode int) *c10Pool {
+	p := &c10Pool{byWid: map[string][]int{}, uidOf: map[string]string{}, byUID: map[string][]string{}, mode: mode}
+	var bases []ocr2keepers.CheckResult
+	takenW := map[string]bool{}
 	for i := 0; i < nIDs; i++ {
-		uid := genUpkeepID(r, r.Chance(50))
-		base := genResult(r, uid, 1000)
+		base := c10NextBase(r, mode, bases)
+		if mode == c10Synthetic {
+			if i > 0 {
+				base.WorkID = c10SyntheticWid(r, bases[0].WorkID, takenW)
+			}
+			if i > 0 && r.Chance(30) { // and several of them under one upkeep id
+				if o := bases[r.Intn(len(bases))]; (o.Trigger.LogTriggerExtension == nil) == (base.Trigger.LogTriggerExtension == nil) {
+					base.UpkeepID = o.UpkeepID
+				}
+			}
+		}
+		takenW[base.WorkID] = true
+		bases = append(bases, base)
 		p.wids = append(p.wids, base.WorkID)
+		uid := hx(base.UpkeepID[:])
+		p.uidOf[base.WorkID] = uid
+		p.byUID[uid] = append(p.byUID[uid], base.WorkID)
 		// check blocks of this work id: ordinary neighbours, or values at and across the powers of two a
 		// uint64 comparison can go wrong at (pairs up to 2^64-1 apart)
 		var blocks []uint64
@@ -595,6 +739,14 @@ func c10MakePool(r *Rng, nIDs int) *c10Pool {
 				c := base
 				c.Trigger.BlockNumber = ocr2keepers.BlockNumber(blk)
 				c.Trigger.BlockHash = genHash(r)
+				if v > 0 && r.Chance(30) {
+					c.Trigger.BlockHash = [32]byte{} // … or the same (zero) hash and different perform data
+				}
+				if ext := base.Trigger.LogTriggerExtension; ext != nil && r.Chance(25) {
+					e := *ext // the log's own block number is not part of its identity
+					e.BlockNumber = ocr2keepers.BlockNumber(blk - uint64(r.Intn(3)))
+					c.Trigger.LogTriggerExtension = &e
+				}
 				c.PerformData = r.Bytes(1 + r.Intn(8))
 				// flag combinations a pipeline may legally return with state 0 and Eligible: they do not make
 				// the result any less eligible
@@ -607,7 +759,7 @@ func c10MakePool(r *Rng, nIDs int) *c10Pool {
 					c.Retryable = true
 					c.IneligibilityReason = uint8(r.Range(1, 9))
 				}
-				if wg(c.UpkeepID, c.Trigger) != base.WorkID {
+				if mode != c10Synthetic && wg(c.UpkeepID, c.Trigger) != base.WorkID {
 					panic("c10: work id depends on the check block")
 				}
 				p.byWid[base.WorkID] = append(p.byWid[base.WorkID], len(p.res))
@@ -638,6 +790,48 @@ func c10MakePool(r *Rng, nIDs int) *c10Pool {
 		}
 	}
 	return p
+}
+
+// family returns the work ids that share wid's upkeep id (wid included), in pool order.
+func (p *c10Pool) family(wid string) []string { return p.byUID[p.uidOf[wid]] }
+
+// c10GenAgreed: the agreed performables of one outcome, as the hook receives them: one result, or several — of
+// ONE upkeep (2–10 logs of a log-trigger upkeep agreed in the same round) mixed with results of other upkeeps, in
+// any order; now and then the same result twice (nothing at the hook forbids it).
+func c10GenAgreed(r *Rng, p *c10Pool, wid string) []int {
+	if r.Chance(30) {
+		return []int{p.anyOf(r, wid)}
+	}
+	fam := p.family(wid)
+	if len(fam) < 2 && r.Chance(70) { // prefer an upkeep with several units of work
+		for _, w := range p.wids {
+			if len(p.family(w)) > len(fam) {
+				fam = p.family(w)
+			}
+		}
+	}
+	var rs []int
+	k := len(fam)
+	if k > 10 {
+		k = 10
+	}
+	if k > 2 {
+		k = r.Range(2, k)
+	}
+	for _, j := range r.Perm(len(fam))[:k] {
+		rs = append(rs, p.anyOf(r, fam[j]))
+	}
+	for i, n := 0, r.Intn(4); i < n; i++ {
+		rs = append(rs, p.anyOf(r, p.wids[r.Intn(len(p.wids))]))
+	}
+	if r.Chance(10) {
+		rs = append(rs, rs[r.Intn(len(rs))])
+	}
+	out := make([]int, len(rs))
+	for i, j := range r.Perm(len(rs)) {
+		out[i] = rs[j]
+	}
+	return out
 }
 
 func (p *c10Pool) anyOf(r *Rng, wid string) int { l := p.byWid[wid]; return l[r.Intn(len(l))] }
@@ -714,9 +908,14 @@ func c10GenOp(r *Rng, p *c10Pool, sh *c10Shadow, focus string, seq bool) c10Op {
 		if r.Chance(20) {
 			op.Ids = append(op.Ids, p.wids[r.Intn(len(p.wids))])
 		}
+		if fam := p.family(wid); len(fam) > 1 && r.Chance(25) { // other units of work of the same upkeep
+			for _, j := range r.Perm(len(fam))[:r.Range(1, len(fam))] {
+				op.Ids = append(op.Ids, fam[j])
+			}
+		}
 		return op
-	case x < 58:
-		return c10Op{K: "hook", Rs: []int{p.anyOf(r, wid)}}
+	case x < 61:
+		return c10Op{K: "hook", Rs: c10GenAgreed(r, p, wid)}
 	}
 	return c10Op{K: "view"}
 }
@@ -846,7 +1045,7 @@ func c10GenSeq(r *Rng, ttl, gci int64, em *Emitter) c10Input {
 		sh.apply(p, op)
 		em.Hit("op=" + op.K)
 		in.Ops = append(in.Ops, op)
-		if f != "" && op.K != "view" && r.Chance(70) { // look at the effect right at the boundary
+		if ((f != "" && op.K != "view") || (op.K == "hook" && len(op.Rs) > 1)) && r.Chance(70) { // look at the effect right at the boundary / after an outcome
 			in.Ops = append(in.Ops, c10Op{K: "view"})
 			em.Hit("op=view")
 		}
@@ -915,12 +1114,25 @@ func c10GenConc(r *Rng, ttl, gci int64, em *Emitter) c10Input {
 func c10GenVolume(r *Rng, ttl, gci int64, n int, em *Emitter) c10Input {
 	in := c10Input{TTL: ttl, GCI: gci, StartDt: int64(r.U64() % uint64(gci))}
 	old := r.Range(10, 60)
+	var logUIDs []ocr2keepers.UpkeepIdentifier
+	famOf := map[ocr2keepers.UpkeepIdentifier][]int{} // live (index < n) units of work per log-trigger upkeep
 	for i := 0; i < n+old; i++ {
 		blk := uint64(r.Range(5, 5000))
 		if r.Chance(10) {
 			blk = c10WideBlocks[3+r.Intn(len(c10WideBlocks)-3)]
 		}
-		c := genResult(r, genUpkeepID(r, i%3 != 0), blk)
+		uid := genUpkeepID(r, i%3 != 0)
+		if i%3 != 0 {
+			if len(logUIDs) > 0 && r.Chance(50) { // another log of an upkeep that is there already
+				uid = logUIDs[r.Intn(len(logUIDs))]
+			} else {
+				logUIDs = append(logUIDs, uid)
+			}
+			if i < n {
+				famOf[uid] = append(famOf[uid], i)
+			}
+		}
+		c := genResult(r, uid, blk)
 		c.Retryable = r.Chance(15)
 		in.Res = append(in.Res, toJCR(c))
 	}
@@ -969,8 +1181,20 @@ func c10GenVolume(r *Rng, ttl, gci int64, n int, em *Emitter) c10Input {
 	push(c10Op{K: "view", Dt: toTick([]int64{0, 1}[r.Intn(2)])})
 	push(c10Op{K: "view", Dt: toTick(0)})
 	hook := c10Op{K: "hook", Dt: 5}
-	for i := 0; i < 30; i++ {
+	for i := 0; i < 22; i++ {
 		hook.Rs = append(hook.Rs, r.Intn(n))
+	}
+	for _, uid := range logUIDs { // … and up to ten logs of one upkeep, anywhere in the outcome
+		if f := famOf[uid]; len(f) >= 2 {
+			for _, j := range r.Perm(len(f)) {
+				if len(hook.Rs) >= 32 {
+					break
+				}
+				k := r.Intn(len(hook.Rs) + 1)
+				hook.Rs = append(hook.Rs[:k], append([]int{f[j]}, hook.Rs[k:]...)...)
+			}
+			break
+		}
 	}
 	push(hook)
 	push(c10Op{K: "view", Dt: toTick(1)})
@@ -998,10 +1222,24 @@ func c10Edge(ttl, gci int64) []c10Input {
 	retry := other // state 0, eligible, and flagged retryable with a reason: still an eligible result
 	retry.Retryable = true
 	retry.IneligibilityReason = 3
+	// three logs of one log-trigger upkeep L (three units of work), and an upkeep whose id differs from L's in one bit
+	lu := genUpkeepID(r, true)
+	la := genResult(r, lu, 20)
+	lb := la
+	lbExt := *la.Trigger.LogTriggerExtension
+	lbExt.Index++
+	lb.Trigger.LogTriggerExtension = &lbExt
+	lb.WorkID = wg(lu, lb.Trigger)
+	lb.PerformData = []byte{0xb}
+	lc := genResult(r, lu, 21)
+	nearID := lu
+	nearID[31] ^= 1
+	ln := genResult(r, nearID, 20)
 	// 0: w@10  1: w@10'  2: w@5  3: w@11  4: other@7  5: w@99 ineligible
 	// 6: w@2^63+5  7: w@2^64-1  8: w@0  9: other@7 retryable
+	// 10: L log a  11: L log b (same transaction, next index)  12: L log c  13: near-L upkeep
 	res := []JCR{at(10, 1), at(10, 2), at(5, 3), at(11, 4), toJCR(other), toJCR(inel),
-		at(1<<63+5, 6), at(1<<64-1, 7), at(0, 8), toJCR(retry)}
+		at(1<<63+5, 6), at(1<<64-1, 7), at(0, 8), toJCR(retry), toJCR(la), toJCR(lb), toJCR(lc), toJCR(ln)}
 	mk := func(start int64, ops ...c10Op) c10Input {
 		return c10Input{TTL: ttl, GCI: gci, StartDt: start, Res: res, Ops: ops}
 	}
@@ -1038,6 +1276,12 @@ func c10Edge(ttl, gci int64) []c10Input {
 		mk(3, c10Op{K: "padd", Dt: 1, Rs: []int{9, 5}}, view(0), c10Op{K: "flow", Dt: 1, Rs: []int{9, 0}, Delay: 1}, view(0)),
 		// empty calls
 		mk(0, add(0), c10Op{K: "rm"}, c10Op{K: "hook"}, c10Op{K: "padd"}, view(0)),
+		// one outcome agrees on several logs of ONE upkeep: every agreed unit of work leaves, the third log and the
+		// near-id upkeep stay; then the rest in another order with one that is gone already
+		mk(5, add(1, 10, 11, 12, 13, 4), view(0), c10Op{K: "hook", Dt: 1, Rs: []int{11, 4, 10}}, view(0), view(int64(time.Second)),
+			c10Op{K: "hook", Dt: 1, Rs: []int{12, 10, 13}}, view(0)),
+		mk(5, c10Op{K: "padd", Dt: 1, Rs: []int{10, 11, 12}}, c10Op{K: "hook", Dt: 1, Rs: []int{12, 11, 10}}, view(0), add(1, 10), view(0),
+			c10Op{K: "hook", Dt: 1, Rs: []int{13}}, view(0), c10Op{K: "rm", Dt: 1, Ids: []string{lb.WorkID, la.WorkID}}, view(0)),
 		// burst on one work id
 		mk(3, add(1, 2), c10Op{K: "burst", Dt: 1, Th: [][]c10Op{
 			{add(0, 0), view(0), add(0, 3)}, {view(0), add(0, 1), view(0)},
@@ -1045,6 +1289,64 @@ func c10Edge(ttl, gci int64) []c10Input {
 			view(ttl), view(1), view(1)),
 	}
 	return out
+}
+
+// c10IdentityHits records which identity dimensions the results of a case's table span (input distribution):
+// one upkeep / several work ids, one work id / several check blocks, one block / several hashes, work ids that
+// share a long prefix or contain one another, upkeep ids a byte apart.
+func c10IdentityHits(em *Emitter, res []JCR) {
+	if len(res) > 400 {
+		return
+	}
+	common := func(a, b string) int {
+		n := 0
+		for n < len(a) && n < len(b) && a[n] == b[n] {
+			n++
+		}
+		return n
+	}
+	hit := map[string]bool{}
+	for i, a := range res {
+		for _, b := range res[i+1:] {
+			if a.WID == b.WID {
+				if a.Trig.BN != b.Trig.BN {
+					hit["ids: one work id, several check blocks"] = true
+				} else if a.Trig.BH != b.Trig.BH {
+					hit["ids: one check block, several block hashes"] = true
+				}
+				if a.Trig.Ext != nil && b.Trig.Ext != nil && a.Trig.Ext.BN != b.Trig.Ext.BN {
+					hit["ids: one work id, several log block numbers"] = true
+				}
+			}
+			if a.WID != b.WID {
+				if a.UID == b.UID {
+					hit["ids: one upkeep, several work ids"] = true
+				}
+				if c := common(a.WID, b.WID); c == len(a.WID) || c == len(b.WID) {
+					hit["ids: a work id is a prefix of another"] = true
+				} else if c >= 32 {
+					hit["ids: work ids share a prefix of 32+ characters"] = true
+				}
+				if strings.EqualFold(a.WID, b.WID) {
+					hit["ids: work ids differ in case only"] = true
+				}
+			}
+			if a.UID != b.UID && len(a.UID) == len(b.UID) {
+				d := 0
+				for k := range a.UID {
+					if a.UID[k] != b.UID[k] {
+						d++
+					}
+				}
+				if d <= 2 {
+					hit["ids: upkeep ids one byte apart"] = true
+				}
+			}
+		}
+	}
+	for k := range hit {
+		em.Hit(k)
+	}
 }
 
 // ---------------------------------------------------------------- entry point
@@ -1070,8 +1372,13 @@ func TestC10(t *testing.T) {
 	}
 	run := func(src string, in c10Input) {
 		in.TTL, in.GCI = ttl, gci // what the code under test shows now (corpus files may be older)
+		c10IdentityHits(em, in.Res)
 		if in.Kind == "gc-race" && in.Race != nil {
 			em.Emit(src, in, c10GCRace(t, ttl, gci, *in.Race))
+			return
+		}
+		if in.Kind == "node" {
+			synctest.Test(t, func(t *testing.T) { em.Emit(src, in, c10RunNode(t, in)) })
 			return
 		}
 		synctest.Test(t, func(t *testing.T) { em.Emit(src, in, c10Run(t, in)) })
@@ -1089,6 +1396,13 @@ func TestC10(t *testing.T) {
 	}
 	for _, in := range c10Edge(ttl, gci) {
 		run("edge", in)
+	}
+	for _, in := range c10NodeEdge(ttl, gci) {
+		run("edge-node", in)
+	}
+	rn := NewRng(seed() + 1010)
+	for i, n := 0, tierN(150, 1500); i < n; i++ {
+		run("gen-node", c10GenNode(rn, ttl, gci, em))
 	}
 	run("gc-race", c10Input{Kind: "gc-race", Res: []JCR{}, Ops: []c10Op{},
 		Race: &c10RaceP{IDs: 24, Adders: 8, Rounds: 25, Bubbles: tierN(40, 400), Seed: seed()}})
